@@ -61,6 +61,8 @@ func runPQ(rep *Report) {
 func init() { checks["pqcrash"] = runPQCrash }
 
 func runPQCrash(rep *Report) {
+	tw, doneTw := traceWriter()
+	defer doneTw()
 	tot := pqrun.CrashStats{}
 	for i := 0; i < *fN; i++ {
 		if !startProgram(i) {
@@ -76,6 +78,9 @@ func runPQCrash(rep *Report) {
 		s := pqrun.Run(r, cfg, p)
 		if s.Q != nil {
 			s.Close()
+		}
+		if tw != nil {
+			fmt.Fprintf(tw, "program %d seed=%d\n%send\n", i, ps, s.CrashTrace())
 		}
 		bits, maxImg := 6, 3000
 		if *fTier == "thorough" {
